@@ -76,7 +76,7 @@ pub fn run(ctx: &Ctx) -> Report {
             apis.push(api!(aes_soft32, "S:aes_soft32::hazmat"));
             apis.push(api!(aes_soft32c, "S:aes_soft32c::hazmat"));
         }
-        let n = ctx.budget(4000, 400_000, 20);
+        let n = ctx.budget(40_000, 800_000, 20);
         for api in apis.iter().filter(|a| ctx.wants_name(a.name)) {
             let id = api.name;
             let mut rng = ctx.rng(&format!("hazmat:{}", id));
